@@ -171,7 +171,8 @@ fn show_key(j: &Jwk) -> (String, Option<String>) {
     }
   };
   (
-    format!("ok:{}:{}:{}:{}:{}:{}", kty_name(j.kty()), f, j.is_public() as u8, j.is_private() as u8, thumb_members(j), proj),
+    // `t=`: the hash input as the exact text it is (compared with the text-level model, IdModel/Jwk/Thumb.lean)
+    format!("ok:{}:{}:{}:{}:{}:{}:t={}", kty_name(j.kty()), f, j.is_public() as u8, j.is_private() as u8, thumb_members(j), proj, crate::rng::hex(j.thumbprint_hash_input().as_bytes())),
     fail,
   )
 }
